@@ -53,6 +53,10 @@ func astOf(n jparse.Node) M {
 	case *jparse.StringNode:
 		return M{"k": "String", "s": cps(n.Value)}
 	case *jparse.NumberNode:
+		if n.Value == 0 {
+			// the sign of a zero literal (-0, --0) is outside the model: trees are compared with every zero written 0/1
+			return M{"k": "Number", "num": M{"t": "num", "n": 0, "d": 1}}
+		}
 		return M{"k": "Number", "num": projNum(n.Value)}
 	case *jparse.BooleanNode:
 		return M{"k": "Boolean", "b": n.Value}
